@@ -51,6 +51,8 @@ theorem stillT_start (cfg : Cfg) (hI : cfg.InflateOk) (hC : cfg.CrcOk) (t : TCfg
     (hpost : ∀ c ∈ post, c.1 ≠ IDAT ∧ c.1 < 2 ^ 32 ∧ c.2.length < 2 ^ 32)
     (hod0 : depthOk (t.outColorDepth h.info f).2 = true)
     (hsize : outLineSize t h.info f h.width * h.height < 2 ^ 64)
+    (hod1 : depthOk (t.outColorDepth i f).2 = true)
+    (hsize2 : outLineSize t i f h.width * h.height < 2 ^ 64)
     (hlimit : outLineSize t i f h.width ≤ dA.limit) :
     ∃ r0,
       step cfg t
@@ -77,6 +79,9 @@ theorem stillT_start (cfg : Cfg) (hI : cfg.InflateOk) (hC : cfg.CrcOk) (t : TCfg
     obtain ⟨r, i, N, dEnd, hri, _, _, _, _, _, hpb, _, _, hiA', hrem, hN, _⟩ :=
       readInfoT_wf cfg hI hC t f opts limit h hv anc dA none hanc hidle z zs raw (hlen z (by simp))
         (fun z' hz' => hlen z' (by simp [hz'])) hinf len' t' rest' h1 h2 h3 hod0 hsize
+        (fun i' hi' => by
+          have : i' = j := by rw [hiA] at hi'; cases hi'; rfl
+          subst this; exact ⟨hod1, hsize2⟩)
         (fun i' hi' => by
           have : i' = j := by rw [hiA] at hi'; cases hi'; rfl
           subst this; rw [hdimsj]; exact hlimit)
